@@ -265,14 +265,18 @@ fn probes(cx: &mut Ctx, s: &Schema) {
             }
         }
     }
-    // several full SIMD batches (1024 values each) + a remainder: the extremes sit in the FIRST
-    // batch, so a kernel that forgets earlier batches (or the remainder) is wrong; reduced shape
-    // list, the tables are large
-    for (name, n_rows) in [("big-2100", 2100i64), ("big-3300", 3300), ("big-2048", 2048)] {
+    // several full SIMD batches (1024 values each) + a remainder.  c0 (NULL every 11th row) has its
+    // unique minimum / maximum planted in the FIRST batch (big-2100; big-2400 and big-3413 have two /
+    // three full batches of non-NULL c0 after it), in the LAST FULL batch
+    // (big-3300) and in the REMAINDER (big-2048: 1861 non-NULL values = 1 batch + 837); c1 = k is
+    // dense with its minimum in the first batch and its maximum in the remainder.  A kernel that
+    // forgets earlier batches, the last full batch or the remainder is wrong on one of them.
+    // Reduced shape list, the tables are large.
+    for (name, n_rows, at_min, at_max) in [("big-2100", 2100i64, 10i64, 20i64), ("big-2400", 2400, 10, 20), ("big-3300", 3300, 2500, 2600), ("big-2048", 2048, 2040, 1500), ("big-3413", 3413, 3400, 5)] {
         let t = Table {
             rows: (0..n_rows)
                 .map(|k| {
-                    let c0 = if k == 10 { i(-500) } else if k == 20 { i(9000) } else if k % 11 == 0 { n.clone() } else { i(k % 97) };
+                    let c0 = if k == at_min { i(-500) } else if k == at_max { i(9000) } else if k % 11 == 0 { n.clone() } else { i(k % 97) };
                     vec![c0, i(k), if k % 3 == 0 { n.clone() } else { i(k % 5) }, st(STRS[(k % 7) as usize])]
                 })
                 .collect(),
@@ -322,7 +326,17 @@ fn float_stream(cx: &mut Ctx, rng: &mut Rng, tables: u64) {
         let null_pct = if (ti as usize) < forced.len() { [10u64, 0, 0, 20][ti as usize] } else { *rng.pick(&[0u64, 20, 100]) };
         let mut batch = vec![];
         for k in 0..n {
-            let d = if rng.below(100) < null_pct { "NULL".to_string() } else { format!("{}", rng.range(0, 400) as f64 / 4.0 + 0.25) };
+            let mut d = if rng.below(100) < null_pct { "NULL".to_string() } else { format!("{}", rng.range(0, 400) as f64 / 4.0 + 0.25) };
+            if (ti as usize) < forced.len() {
+                // unique extremes: minimum in the first batch, maximum in the last full batch (forced
+                // tables 0,1) or in the remainder / first batch (2,3)
+                let (at_min, at_max) = [(5usize, 1100usize), (2590, 2100), (1000, 3), (2049, 700)][ti as usize];
+                if k == at_min {
+                    d = "0.0".into();
+                } else if k == at_max {
+                    d = "5000.5".into();
+                }
+            }
             batch.push(format!("({}, {})", k % 10, d));
             if batch.len() == 50 || k + 1 == n {
                 db.must(&format!("INSERT INTO f VALUES {}", batch.join(", ")));
@@ -332,6 +346,7 @@ fn float_stream(cx: &mut Ctx, rng: &mut Rng, tables: u64) {
         for sql in [
             "SELECT COUNT(*), COUNT(d), SUM(d), AVG(d), MIN(d), MAX(d) FROM f",
             "SELECT SUM(d), AVG(d), COUNT(*) FROM f WHERE k >= 5",
+            "SELECT MIN(d), MAX(d), AVG(d) FROM f WHERE k >= 0",
             "SELECT SUM(d), MIN(d) FROM f WHERE k BETWEEN 2 AND 3 AND k < 3",
             "SELECT SUM(d * 2), AVG(d + k) FROM f WHERE k = 4",
             "SELECT SUM(d) FROM f WHERE k > 100",
